@@ -85,11 +85,14 @@ def gen_program(rng, depth=3):
                 return "0{:" + lim + "<|›" + body + "}"
             if pure or inw[0]:
                 return atom(pure)
-            brk = rng.choice(["", "", "¥1=[X]", "X"])
+            # `x` (continue) under a test that holds for one value of the counter only: after it the OLD condition value is
+            # tested again — the condition code (which may print or change the stack) is not re-run
+            brk = rng.choice(["", "", "¥1=[X]", "X", "¥1=[x]", "¥2=[x]", "¥1=[x]"])
+            cond = "¥" if "x" not in brk else rng.choice(["¥", "¥:…_", "¥:,", "¥d", "5¥"])
             inw[0] = True
             body = seq(d - 1, True, fn)
             inw[0] = False
-            return rng.choice("123") + "£{¥|¥‹£" + body + brk + "}"
+            return rng.choice("1234" if "x" in brk else "123") + "£{" + cond + "|¥‹£" + body + brk + "}"
         if k == 3:      # lambda called at once
             ar = rng.choice(["", "", "1|", "2|", "0|", "3|"])
             brk = rng.choice(["", "", "", "X", "1[X]"])
